@@ -623,6 +623,11 @@ fn mode_intern(f: &[&str]) -> String {
             let mut moved = false;
             let mut lost = false;
             let mut ids: Vec<usize> = Vec::new();
+            let mut hb = Vec::new();
+            let mut hs = Vec::new();
+            let mut hp = Vec::new();
+            let mut issued_texts: Vec<Vec<u8>> = Vec::new();
+            let mut eqbad = 0usize;
             for op in f[1].split(',') {
                 if op.is_empty() {
                     continue;
@@ -644,11 +649,40 @@ fn mode_intern(f: &[&str]) -> String {
                 } else {
                     panic!("bad op")
                 };
+                // the handles themselves are kept: equality of handles (==, hashing) is what the assembler uses
                 let raw = match kind {
-                    "bytes" => bi.intern(&text).verif_raw(),
-                    "str" => si.intern(std::str::from_utf8(&text).unwrap()).verif_raw(),
-                    _ => pi.intern(Path::new(std::str::from_utf8(&text).unwrap())).verif_raw(),
+                    "bytes" => {
+                        let h = bi.intern(&text);
+                        for (k, old) in hb.iter().enumerate() {
+                            if (*old == h) != (issued_texts[k] == text) {
+                                eqbad += 1;
+                            }
+                        }
+                        hb.push(h);
+                        h.verif_raw()
+                    }
+                    "str" => {
+                        let h = si.intern(std::str::from_utf8(&text).unwrap());
+                        for (k, old) in hs.iter().enumerate() {
+                            if (*old == h) != (issued_texts[k] == text) {
+                                eqbad += 1;
+                            }
+                        }
+                        hs.push(h);
+                        h.verif_raw()
+                    }
+                    _ => {
+                        let h = pi.intern(Path::new(std::str::from_utf8(&text).unwrap()));
+                        for (k, old) in hp.iter().enumerate() {
+                            if (*old == h) != (issued_texts[k] == text) {
+                                eqbad += 1;
+                            }
+                        }
+                        hp.push(h);
+                        h.verif_raw()
+                    }
                 };
+                issued_texts.push(text.clone());
                 // same text -> same handle ; different -> different
                 let mut id = issued.len();
                 for (k, (t, r)) in issued.iter().enumerate() {
@@ -722,7 +756,7 @@ fn mode_intern(f: &[&str]) -> String {
                 "IDS {} MOVED {} LOST {} STALE {} NBUF {} LOCS {} CAPS {}",
                 ids.iter().map(|x| x.to_string()).collect::<Vec<_>>().join(","),
                 moved as u8,
-                lost as u8,
+                (lost || eqbad > 0) as u8,
                 stale,
                 bufs.len(),
                 locs.join(","),
